@@ -224,5 +224,7 @@ def check(chk):
     # USE statements finish through the keyspace switch: its completion must be delivered once
     chk.rule('C14.use', 'the keyspace switch that completes a USE request reports its completion exactly once (all pools asked are the pools awaited; errors accumulated)')
     chk.rule('C14.conn', 'a connection that dies fails each request pending on it exactly once (error_all_requests swaps the table and walks every saved callback once)')
+    chk.rule('C14.retry', 'a same-host retry that was sent is not followed by another send of the same request (the stream id 0 is a stream id)')
+    chk.borrow('C17', {'C17.retry': 'C14.retry'}, 'the request is sent twice for one retry decision: both sends are answered and the outcome is delivered twice')
     chk.borrow('C10', {'C10.swap': 'C14.conn'}, 'a request failed twice by its dying connection is retried twice: callback and errback (or the callback twice) run for one execution')
     chk.borrow('C20', {'C20.complete': 'C14.use'}, 'the request\'s outcome callback can run more than once or never')
